@@ -127,8 +127,7 @@ def transform_bounds_tensor(c, kind):
     """tensor-valued bounds and raw values: elementwise, for every extent d"""
     it, ctx = c.it, c.ctx
     cons, lo, hi = make_constraint(c, kind)
-    d = c.int("d")
-    c.assume(d.t >= 1)
+    d = c.size("d")
     L = sym_tensor("Lb", [d.t])
     W = sym_tensor("Wb", [d.t])
     raw = sym_tensor("rawv", [d.t])
@@ -354,8 +353,7 @@ def site(c, modname, cname, raw, kind):
         return
     c.info["property"] = prop
     cons, lo, hi = make_constraint(c, kind)
-    d = c.int("d")
-    c.assume(d.t >= 1)
+    d = c.size("d")
     o, p0 = seat_module(c, ci, raw, cons, [d.t])
     cc = ConstraintContract(c, cons, lo, hi)
     k = ivar("k")
@@ -413,8 +411,7 @@ def prior_closures(c, modname, cname, raw, prop):
     it, ctx = c.it, c.ctx
     ci = it.index.get_module(modname).classes[cname]
     cons, lo, hi = make_constraint(c, "Positive")
-    d = c.int("d")
-    c.assume(d.t >= 1)
+    d = c.size("d")
     o, p0 = seat_module(c, ci, raw, cons, [d.t])
     cc = ConstraintContract(c, cons, lo, hi)
     call = None
